@@ -102,6 +102,14 @@ def model(cases):
     outs = [disc.parse_model(o) for o in common.driver_run(lines)]
     for c, g in zip(cases, outs[1::2]):
         c["m_gen"] = g
+    # the update and reset *visitors* translated from the source (operator dictionary, memo): `proggen`
+    pl = ["proggen | %s | %d | %d | %s" % (F.to_proto(c["mf"]), c["npre"], c["n"], disc.sigs(c["data"])) for c in cases]
+    for c, o in zip(cases, common.driver_run(pl)):
+        if o.startswith("ok"):
+            body = o[2:].strip()
+            c["m_glue"] = ("ok", [common.b2f(r.split()[-1]) for r in body.split(";")] if body else [])
+        else:
+            c["m_glue"] = ("err", o.strip())
     return outs[0::2]
 
 
@@ -134,6 +142,10 @@ def check_case(ctx, case, m):
         return None, Violation("the operation classes translated from the source (reset() and update() under the Lean semantics of the "
                                "Python subset) give %r after reset, the implementation %r: %s" % (g, outs_a, text), rep,
                                failing_input=False, stream="reset/translated")
+    gl = case.get("m_glue")
+    if gl is not None and (gl[0] != "ok" or not same_vals(outs_a, gl[1])) and not any(x != x for x in outs_a):
+        return None, Violation("the update / reset visitors translated from the source give %r after reset, the implementation %r: %s"
+                               % (gl, outs_a, text), rep, failing_input=False, stream="reset/translated-visitors")
     return None, None
 
 
